@@ -862,6 +862,24 @@ S('silent-154-fc-or-after-clear', ['C06', 'C10'], 'src/wire/ieee802154.rs',
 """,
   """            raw |= ((val as u16) << $bit);
 """, 'OR-only flag setters are harmless in emit once the frame control word is zeroed first')
+V('c04-syn-window-bookkeeping-branches-swapped', 'C04', T,
+  """        self.remote_last_win = if repr.control == TcpControl::Syn {
+            repr.window_len >> self.remote_win_shift
+        } else {
+            repr.window_len
+        };""",
+  """        self.remote_last_win = if repr.control != TcpControl::Syn {
+            repr.window_len >> self.remote_win_shift
+        } else {
+            repr.window_len
+        };""", 'R04.8')
+V('c04-syn-window-recorded-unscaled', 'C04', T,
+  """        self.remote_last_win = if repr.control == TcpControl::Syn {
+            repr.window_len >> self.remote_win_shift
+        } else {
+            repr.window_len
+        };""",
+  """        self.remote_last_win = repr.window_len;""", 'R04.8')
 S('silent-tcp-ack-check-swapped-tests', ['C05', 'C01', 'C04'], T,
   """                if ack_number < ack_min {
                     net_debug!(
